@@ -169,6 +169,60 @@ static struct xcm_attr_map *nb_attrs(void)
 static int est[4], term[4], eofs[4], sent[4], rcvd[4], bad_order[4];
 static int want_send[4];
 
+/* "release" on plain tcp / btcp: what the raw peer finds on the wire */
+static unsigned char wire[4096];
+static size_t wire_n;
+static bool wirechk_g;
+static int attempt_no, acc_att[16];	/* every xcm_send attempt carries its number; those of the accepted ones */
+
+static void wire_read(void)
+{
+    while (rawc >= 0 && wire_n < sizeof(wire)) {
+	ssize_t k = recv(rawc, wire + wire_n, sizeof(wire) - wire_n, MSG_DONTWAIT);
+	if (k <= 0)
+	    break;
+	wire_n += (size_t)k;
+    }
+}
+
+/* complete units on the wire (frames: 4-byte length + payload; byte stream: 4-byte chunks); *ok = they are the
+   units 1, 2, ... of the connecting side, in order; *rest = bytes of an incomplete unit */
+static int wire_units(bool framed, int *ok, int *rest, int *phantom)
+{
+    size_t pos = 0;
+    int n = 0;
+    *ok = 1;
+    *phantom = 0;
+    for (;;) {
+	size_t len = 4;
+	size_t hdr = framed ? 4 : 0;
+	if (framed) {
+	    if (wire_n - pos < 4)
+		break;
+	    len = ((size_t)wire[pos] << 24) | ((size_t)wire[pos + 1] << 16) | ((size_t)wire[pos + 2] << 8) | wire[pos + 3];
+	    if (len < 4 || len > 8) {
+		*ok = 0;
+		break;
+	    }
+	}
+	if (wire_n - pos < hdr + len)
+	    break;
+	const unsigned char *b = wire + pos + hdr;
+	n++;
+	if (b[0] != (unsigned char)(n - *phantom) || b[1] != 1 || b[2] != 0x5a)
+	    *ok = 0;
+	bool accepted = false;
+	for (int i = 0; i < sent[1] && i < 16; i++)
+	    if (acc_att[i] == b[3])
+		accepted = true;
+	if (!accepted)
+	    (*phantom)++;
+	pos += hdr + len;
+    }
+    *rest = (int)(wire_n - pos);
+    return n;
+}
+
 static void close_so(int e)
 {
     if (!so[e])
@@ -220,6 +274,8 @@ static void do_send(int e)
     b[3] = (unsigned char)len;
     if (len < 4)
 	len = 4;
+    if (wirechk_g)
+	b[3] = (unsigned char)++attempt_no;
     CALL_BEGIN(e);
     int rc = xcm_send(so[e], b, len);
     int err = errno;
@@ -228,7 +284,10 @@ static void do_send(int e)
     bool ok = tp[0] == 'b' ? rc == len : rc == 0;
     if (ok) {
 	sent[e]++;
-	est[e] = 1;
+	if (!wirechk_g)		/* tcp accepts a message while still connecting: no proof of establishment */
+	    est[e] = 1;
+	else if (e == 1 && sent[1] <= 16)
+	    acc_att[sent[1] - 1] = attempt_no;
     } else if (rc < 0 && err != EAGAIN && term[e] == 0)
 	term[e] = err;
     /* a partially accepted byte-stream chunk would desynchronise the tiny protocol: it cannot happen for 4 bytes
@@ -471,7 +530,8 @@ static void run(void)
     } else
 	setenv("XCM_CTL", "/nonexistent-verif", 1);
     bool garbage2 = strcmp(scen, "garbage2") == 0;
-    bool normal = strcmp(scen, "normal") == 0 || ctlflood || garbage2, refused = strcmp(scen, "refused") == 0,
+    bool longidle = strcmp(scen, "longidle") == 0;
+    bool normal = strcmp(scen, "normal") == 0 || ctlflood || garbage2 || longidle, refused = strcmp(scen, "refused") == 0,
 	 silent = strcmp(scen, "silent") == 0, release = strcmp(scen, "release") == 0,
 	 mute = strcmp(scen, "mute") == 0, garbage = strcmp(scen, "garbage") == 0, idle = strcmp(scen, "idle") == 0;
     int up = 1;
@@ -552,6 +612,14 @@ static void run(void)
     /* goals: in the normal scenario each side sends 2 messages and receives the peer's */
     if (normal)
 	want_send[1] = want_send[2] = 2;
+    /* plain tcp / btcp with a late peer: the connecting side sends while the TCP handshake is still pending; the raw
+       peer compares what arrives with what xcm_send accepted */
+    bool wirechk = release && !tls_based;
+    wire_n = 0;
+    wirechk_g = wirechk;
+    attempt_no = 0;
+    if (wirechk)
+	want_send[1] = 2;
 
     long t0 = now_ms();
     int ctlfd = -1, ctlfds[4], nctl = 0, ctl_calls = 0;
@@ -611,7 +679,10 @@ static void run(void)
 	    rclosed = true;
 	    emit("env", 0, 0, 0, 4, 0);
 	}
-	if (release && !tls_based && rawc >= 0 && !rclosed && est[1] && el > 1300) {
+	if (wirechk)
+	    wire_read();
+	if (release && !tls_based && rawc >= 0 && !rclosed && est[1] && el > 1300 && (sent[1] >= want_send[1] || el > 2500)) {
+	    wire_read();
 	    /* plain tcp/btcp: the raw peer closes after establishment so that the run ends with an EOF */
 	    close(rawc);
 	    rawc = -2;
@@ -730,6 +801,40 @@ static void run(void)
 		do_finish(e);
 	}
     }
+    /* longidle: the established, idle connection is looked at again later than the connect time-out (tcp.connect_timeout,
+       3 s by default) after xcm_connect: with nothing to receive, nothing to send and nothing to finish, its descriptor
+       must be quiet.  A spin = the descriptor is readable, xcm_receive says EAGAIN and xcm_finish says 0 - three times
+       in a row, with 20 ms in between (a single wake-up for TLS-internal traffic is legitimate) */
+    if (longidle && so[1] && so[2] && !stuck && !term[1] && !term[2]) {
+	while (now_ms() - t0 < 3400)
+	    usleep(20000);
+	int spin[3] = { 0, 0, 0 };
+	for (int e = 1; e <= 2; e++) {
+	    do_await(e, XCM_SO_RECEIVABLE);
+	    cond[e] = XCM_SO_RECEIVABLE;
+	}
+	for (int e = 1; e <= 2; e++)
+	    for (int i = 0; i < 3 && !term[e] && !eofs[e]; i++) {
+		if (!(poll1(xcm_fd(so[e]), POLLIN) > 0))
+		    break;
+		int r0 = rcvd[e];
+		do_receive(e);
+		if (rcvd[e] != r0 || term[e] || eofs[e])
+		    break;
+		CALL_BEGIN(e);
+		int frc = xcm_finish(so[e]);
+		int ferr = errno;
+		CALL_END();
+		emit("f", e, frc, frc < 0 ? ferr : 0, 0, shim_wait_seen());
+		if (frc != 0)
+		    break;
+		spin[e] = i + 1;
+		usleep(20000);
+	    }
+	stepno++;
+	fprintf(out, "{\"x\":%ld,\"n\":%ld,\"op\":\"id\",\"e\":0,\"spin\":[%d,%d],\"ms\":%ld}\n", xid, stepno, spin[1], spin[2],
+		now_ms() - t0);
+    }
     /* garbage2: a second connection of this process is fed garbage instead of a TLS handshake; afterwards the healthy
        connection must still say EAGAIN when idle, deliver what is sent and finish cleanly */
     if (garbage2 && so[1] && so[2] && !stuck && !term[1] && !term[2]) {
@@ -804,6 +909,40 @@ static void run(void)
 	}
     }
 
+    /* a send that failed while connecting: the application goes on using the socket (finish, receive) until the late
+       peer has accepted and has had time to receive whatever the library still sends */
+    if (wirechk && so[1] && term[1] && !stuck && rawl >= 0) {
+	for (int i = 0; i < 90 && !rclosed; i++) {
+	    long el = now_ms() - t0;
+	    if (!released && el > 150) {
+		int c = accept(rawl, NULL, NULL);
+		if (c >= 0) {
+		    close(c);
+		    released = true;
+		    emit("env", 0, 0, 0, 1, 0);
+		}
+	    }
+	    if (released && rawc < 0) {
+		int c = accept(rawl, NULL, NULL);
+		if (c >= 0) {
+		    rawc = c;
+		    fcntl(rawc, F_SETFL, fcntl(rawc, F_GETFL) | O_NONBLOCK);
+		    emit("env", 0, 0, 0, 2, 0);
+		}
+	    }
+	    wire_read();
+	    if (i % 3 == 0)
+		do_finish(1);
+	    else if (i % 3 == 1)
+		do_receive(1);
+	    if (rawc >= 0 && el > 1900) {
+		wire_read();
+		break;
+	    }
+	    usleep(25000);
+	}
+    }
+
     /* orderly end of the normal scenario: 1 closes, 2 must see it */
     int close_seen = -1;
     if (normal && so[1] && so[2] && !stuck && !term[1] && !term[2]) {
@@ -836,11 +975,16 @@ static void run(void)
 	    if (xcm_attr_get_str(so[e], "xcm.transport", t, sizeof(t)) >= 0)
 		legs[e] = strcmp(t, "ux") == 0 ? 1 : strcmp(t, "tls") == 0 ? 2 : 3;
 	}
+    /* judged last: every attempt of the run is known by now */
+    int wok = 1, wrest = 0, wph = 0;
+    wire_read();
+    int wun = wirechk ? wire_units(tp[0] != 'b', &wok, &wrest, &wph) : -1;
     stepno++;
     fprintf(out, "{\"x\":%ld,\"n\":%ld,\"op\":\"q\",\"e\":0,\"legs\":[%d,%d],\"stk\":%d,\"turns\":%d,\"ms\":%ld,\"est\":[%d,%d],\"term\":[%d,%d],"
-	    "\"eofs\":[%d,%d],\"sent\":[%d,%d],\"rcvd\":[%d,%d],\"bado\":[%d,%d],\"acc\":%d,\"cs\":%d,\"rel\":%d,\"rcl\":%d,\"rg\":%d}\n",
+	    "\"eofs\":[%d,%d],\"sent\":[%d,%d],\"rcvd\":[%d,%d],\"bado\":[%d,%d],\"acc\":%d,\"cs\":%d,\"rel\":%d,\"rcl\":%d,\"rg\":%d,\"wire\":[%d,%d,%d,%d]}\n",
 	    xid, stepno, legs[1], legs[2], stuck, turns, now_ms() - t0, est[1], est[2], term[1], term[2], eofs[1], eofs[2],
-	    sent[1], sent[2], rcvd[1], rcvd[2], bad_order[1], bad_order[2], so[2] != NULL, close_seen, released, rclosed, rgarb);
+	    sent[1], sent[2], rcvd[1], rcvd[2], bad_order[1], bad_order[2], so[2] != NULL, close_seen, released, rclosed, rgarb,
+	    wun, wok, wrest, wph);
     for (int e = 1; e <= 3; e++)
 	close_so(e);
     for (int i = 0; i < nctl; i++)
